@@ -23,7 +23,7 @@ Bind(r) ==
     /\ doing' = [a \in Alg |-> ToSet(r.st.doing[a])]
     /\ que' = ToSet(r.st.que)
     /\ fly' = FlyOf(r.st)
-    /\ stale' = stale /\ hand' = hand /\ nrec' = nrec /\ ndrop' = ndrop /\ runs' = runs /\ reloads' = reloads
+    /\ stale' = stale /\ hand' = hand /\ held' = held /\ faults' = faults /\ nrec' = nrec /\ ndrop' = ndrop /\ runs' = runs /\ reloads' = reloads
     /\ src' = [k \in SrcDom |-> r.st.src[Key(k)]]
     /\ stored' = [k \in Alg \X Tg \X Val |-> r.st.stored[Key(k)]]
     /\ seen' = seen
@@ -34,7 +34,7 @@ FailClause(name, ok) == IF ok THEN {} ELSE {name}
 TraceInit ==
     /\ tid \in 1..Len(Traces) /\ l = 1
     /\ prog = ProgOf(Traces[tid].prog)
-    /\ todo = [a \in Alg |-> {}] /\ doing = [a \in Alg |-> {}] /\ hand = [a \in Alg |-> {}] /\ que = {}
+    /\ todo = [a \in Alg |-> {}] /\ doing = [a \in Alg |-> {}] /\ hand = [a \in Alg |-> {}] /\ held = [a \in Alg |-> {}] /\ faults = 0 /\ que = {}
     /\ fly = [u \in Alg \X Tg |-> 0] /\ stale = [u \in Alg \X Tg |-> 0]
     /\ nrec = 0 /\ ndrop = 0 /\ runs = 0 /\ reloads = 0
     /\ src = [k \in SrcDom |-> Rec(tid, 1).st.src[Key(k)]]
